@@ -48,6 +48,13 @@ def fixed_configs(tier, seed, keras3=False):
               kw2["is_quantized_clip"] = False
               kw2["relu_upper_bound"] = k * step
               out.append({"cls": "quantized_relu", "kw": kw2})
+            if bits in (3, 4, 6):
+              # a bound above the largest code (the format's own top code stays the ceiling), and a bound that the
+              # default is_quantized_clip=True makes the quantizer ignore altogether
+              kw3 = dict(kw, is_quantized_clip=False, relu_upper_bound=3.0 * m * step)
+              out.append({"cls": "quantized_relu", "kw": kw3})
+              kw4 = dict(kw, relu_upper_bound=max(1, m // 2) * step)
+              out.append({"cls": "quantized_relu", "kw": kw4})
             continue
           out.append({"cls": "quantized_relu", "kw": kw})
   # a constant *per-channel* scale (tensor alpha, the form quantized_linear's docstring feeds back from an auto run)
